@@ -28,6 +28,7 @@ const baseText = `module a { namespace "urn:a"; prefix a;
  anydata ad;
  container u1 { uses g; } container u2 { uses g; }
  rpc r { input { leaf i { type string; default id; } } }
+ container input { leaf output { type string; default od; } leaf config { type string; } }
 }`
 
 // a second module grafts nodes into a: deviations of augmented nodes
@@ -38,7 +39,9 @@ const augText = `module g { namespace "urn:g"; prefix g; import a { prefix a; }
 
 var baseFiles = []dump.File{{Name: "a.yang", Text: baseText}, {Name: "g.yang", Text: augText}}
 
-var targets = []string{"l", "n", "m", "ll", "li", "c", "c/x", "c/cc/y", "ch", "ad", "u1/gl", "u1/gll", "u1/gli", "r/input/i", "r/input", "nope", "c/nope", "c/g:ay", "c/g:all", "u1/g:ac/g:az"}
+var targets = []string{"l", "n", "m", "ll", "li", "c", "c/x", "c/cc/y", "ch", "ad", "u1/gl", "u1/gll", "u1/gli", "r/input/i", "r/input", "nope", "c/nope", "c/g:ay", "c/g:all", "u1/g:ac/g:az",
+	// nodes named like statement keywords: a container called input with a leaf called output, outside any rpc
+	"input", "input/output"}
 
 type prop struct{ K, V string }
 type deviate struct {
@@ -419,7 +422,7 @@ func goneAbove(want map[string]*node, t string) bool {
 // implicit: the input and output nodes of an rpc exist whether or not they are written (RFC 7950
 // 7.14), so removing one empties it and a later deviation still finds it.
 func implicit(t string) bool {
-	return strings.HasSuffix(t, "/input") || strings.HasSuffix(t, "/output")
+	return strings.HasPrefix(t, "r/") && (strings.HasSuffix(t, "/input") || strings.HasSuffix(t, "/output"))
 }
 
 // check accepts either order of application when several modules deviate (the statement fixes the
@@ -637,7 +640,7 @@ func shards(tier string) []string {
 }
 
 // several deviation statements on a node, its children and its ancestors, in one module and in two
-var relTargets = []string{"c", "c/x", "c/cc", "c/cc/y", "u1", "u1/gl", "u1/gll", "r/input", "r/input/i", "n", "c/g:ay", "u1/g:ac", "u1/g:ac/g:az"}
+var relTargets = []string{"c", "c/x", "c/cc", "c/cc/y", "u1", "u1/gl", "u1/gll", "r/input", "r/input/i", "n", "c/g:ay", "u1/g:ac", "u1/g:ac/g:az", "input", "input/output"}
 var relDeviates = []deviate{{Kind: "not-supported"}, {"replace", []prop{{"config", "false"}}}, {"add", []prop{{"units", "v"}}}, {"replace", []prop{{"type", "int8"}}}, {"delete", []prop{{"default", "4"}}}}
 
 var tripleTargets = []string{"l", "ll", "u1/gll", "ch", "c/cc/y"}
